@@ -17,13 +17,13 @@ Section Stmt.
   (* ---- storing the value on top of the stack into a variable *)
   Lemma set_sim : forall ρ x v s fid C fv K pc σ I brk cont,
     wf ρ ->
-    nth_error C pc = Some (resolve brk cont pc (gen_set p (map fst ρ) x)) ->
+    nth_error C pc = Some (resolve brk cont pc (gen_set p (map fst ρ) [] x)) ->
     sim p (set_var p ρ x v s) (S1 fid C fv K pc (v :: σ) ρ I s)
         (fun r => wf (fst r) /\ map fst (fst r) = map fst ρ /\
                   star cp fn (S1 fid C fv K pc (v :: σ) ρ I s) (S1 fid C fv K (S pc) σ (fst r) I (snd r))).
   Proof.
     intros ρ x v s fid C fv K pc σ I brk cont Hwf Hf.
-    unfold set_var, gen_set in *.
+    unfold set_var, gen_set in *. cbn [assoc] in Hf.
     destruct (assoc x ρ) as [sl|] eqn:Ea.
     - destruct (assoc_local ρ x sl Hwf Ea) as [i [ov [-> [Hi Hn]]]].
       destruct (assoc_set_local ρ x ov v Hwf Ea) as [i' [Hi' [Hv [Hm Hd]]]].
@@ -48,7 +48,7 @@ Section Stmt.
     Proof. reflexivity. Qed.
     Lemma gs_assign : forall t e ps, gs (SAssign t e ps) = ge e ++ gen_assign p ls t ps. Proof. reflexivity. Qed.
     Lemma gs_aug_name : forall o x px e ps,
-      gs (SAug o (TName x px) e ps) = [gen_name p ls x px] ++ ge e ++ aug_insn o ps ++ [gen_set p ls x].
+      gs (SAug o (TName x px) e ps) = [gen_name p ls [] x px] ++ ge e ++ aug_insn o ps ++ [gen_set p ls [] x].
     Proof. reflexivity. Qed.
     Lemma gs_aug_index : forall o x y pi e ps,
       gs (SAug o (TIndex x y pi) e ps) = ge x ++ ge y ++ [DUP2; INDEX pi] ++ ge e ++ aug_insn o ps ++ [SETINDEX pi].
@@ -89,26 +89,30 @@ Section Stmt.
     first [ vstep1 Ep; apply star_refl | vstop1 Ep ].
   Qed.
 
-  Lemma As_step : forall n, E p n -> As p (S n).
+  Lemma ga_seq : forall ls ts ps,
+    gen_assign p ls (TSeq ts) ps = UNPACK (length ts) ps :: flat_map (fun t => gen_assign p ls t ps) ts.
+  Proof. reflexivity. Qed.
+
+  Lemma As_step : forall n, E p n -> Aq p n -> As p (S n).
   Proof.
-    intros n IHE.
-    unfold As; intros stk ρ t v ps s fid C fv K pc I brk cont Hok Hwf Hstk Hcode.
+    intros n IHE IHQ.
+    unfold As; intros stk ρ t v ps s fid C fv K pc σ I brk cont Hok Hwf Hstk Hcode.
     destruct t; simpl in Hok; try discriminate.
     - (* TName *)
-      simpl assign. change (gen_assign p (map fst ρ) (TName x p0) ps) with [gen_set p (map fst ρ) x] in *.
+      simpl assign. change (gen_assign p (map fst ρ) (TName x p0) ps) with [gen_set p (map fst ρ) [] x] in *.
       apply pcode_cons in Hcode. destruct Hcode as [Hf _].
-      pose proof (set_sim ρ x v s fid C fv K pc [] I brk cont Hwf Hf) as Hs.
+      pose proof (set_sim ρ x v s fid C fv K pc σ I brk cont Hwf Hf) as Hs.
       destruct (set_var p ρ x v s) as [[ρ1 s1]| | |]; cbn [sim fst snd] in *; auto.
       destruct Hs as [H1 [H2 H3]]. repeat split; auto. chain H3. fin.
     - (* TIndex *)
       apply andb_true_iff in Hok. destruct Hok as [Hx Hy].
       rewrite ga_index in *. pcode_split.
-      codeof x ltac:(fun Hc => pose proof (IHE stk ρ x s fid C fv K pc [v] I brk cont Hx Hwf Hstk Hc) as IH1).
+      codeof x ltac:(fun Hc => pose proof (IHE stk ρ x s fid C fv K pc (v :: σ) I brk cont Hx Hwf Hstk Hc) as IH1).
       simpl assign.
       destruct (eval p n stk ρ x s) as [[vx s1]| | |]; cbn [sim fst snd] in *; auto.
-      codeof y ltac:(fun Hc => pose proof (IHE stk ρ y s1 fid C fv K _ [v; vx] I brk cont Hy Hwf Hstk Hc) as IH2).
-      assert (Hpre : star cp fn (S1 fid C fv K pc [v] ρ I s)
-                       (S1 fid C fv K (pc + length (gen_expr p (map fst ρ) x) + 1) [v; vx] ρ I s1)).
+      codeof y ltac:(fun Hc => pose proof (IHE stk ρ y s1 fid C fv K _ (v :: vx :: σ) I brk cont Hy Hwf Hstk Hc) as IH2).
+      assert (Hpre : star cp fn (S1 fid C fv K pc (v :: σ) ρ I s)
+                       (S1 fid C fv K (pc + length (gen_expr p (map fst ρ) x) + 1) (v :: vx :: σ) ρ I s1)).
       { chain IH1. vstep. fin. }
       destruct (eval p n stk ρ y s1) as [[vy s2]| | |]; cbn [sim fst snd] in *; auto;
         try (hstar Hpre; hchain IH2).
@@ -116,6 +120,42 @@ Section Stmt.
       + repeat split; auto. chain Hpre. chain IH2. vstep. vstep1 Eb. fin.
       + hstar Hpre. hstar IH2. eapply halts_star; [ vstep; apply star_refl | vstop1 Eb ].
       + hstar Hpre. hstar IH2. eapply halts_star; [ vstep; apply star_refl | vstop1 Eb ].
+    - (* TSeq *)
+      rewrite ga_seq in *. pcode_split.
+      simpl assign.
+      destruct (unpack (length ts) v (rw s)) as [vs| |t] eqn:Eu; cbn [lift sim fst snd].
+      2: { vstop1 Eu. }
+      2: { vstop1 Eu. }
+      pose proof (unpack_length _ _ _ _ Eu) as Hlen.
+      match goal with Hc : pcode_at C ?q (flat_map _ ts) _ _ |- _ =>
+        pose proof (IHQ stk ρ ts vs ps s fid C fv K q σ I brk cont Hok Hlen Hwf Hstk Hc) as IH1 end.
+      destruct (assign_seq p n stk ρ ts vs ps s) as [[ρ1 s1]| | |]; cbn [sim fst snd] in *; auto.
+      + destruct IH1 as [Hw [Hm IH1]]. repeat split; auto. vstep1 Eu. chain IH1. fin.
+      + eapply halts_star; [ vstep1 Eu; apply star_refl | ]. hchain IH1.
+      + eapply halts_star; [ vstep1 Eu; apply star_refl | ]. hchain IH1.
+  Qed.
+
+  Lemma Aq_step : forall n, As p n -> Aq p n -> Aq p (S n).
+  Proof.
+    intros n IHA IHQ.
+    unfold Aq; intros stk ρ ts vs ps s fid C fv K pc σ I brk cont Hok Hlen Hwf Hstk Hcode.
+    destruct ts as [|t ts]; destruct vs as [|v vs]; simpl in Hlen; try discriminate; simpl assign_seq.
+    - cbn [sim fst snd]. repeat split; auto. fin.
+    - simpl in Hok. apply andb_true_iff in Hok. destruct Hok as [Ht Hts].
+      simpl in Hcode. pcode_split.
+      match goal with Hc : pcode_at C pc (gen_assign _ _ t _) _ _ |- _ =>
+        pose proof (IHA stk ρ t v ps s fid C fv K pc (vs ++ σ) I brk cont Ht Hwf Hstk Hc) as IH1 end.
+      destruct (assign p n stk ρ t v ps s) as [[ρ1 s1]| | |]; cbn [sim fst snd] in *; auto.
+      destruct IH1 as [Hw1 [Hm1 IH1]].
+      match goal with Hc : pcode_at C ?q (flat_map _ ts) _ _ |- _ =>
+        rewrite <- Hm1 in Hc;
+        pose proof (IHQ stk ρ1 ts vs ps s1 fid C fv K _ σ I brk cont Hts ltac:(lia) Hw1 Hstk Hc) as IH2 end.
+      rewrite Hm1 in IH2.
+      destruct (assign_seq p n stk ρ1 ts vs ps s1) as [[ρ2 s2]| | |]; cbn [sim fst snd] in *; auto.
+      + destruct IH2 as [Hw2 [Hm2 IH2]]. repeat split; auto; try congruence.
+        chain IH1. chain IH2. fin.
+      + hstar IH1. hchain IH2.
+      + hstar IH1. hchain IH2.
   Qed.
 
   Lemma after_pre : forall fid C fv K S0 S0' pc pc' len len' I brk cont r,
@@ -135,22 +175,6 @@ Section Stmt.
 
   Hypothesis Hfuns : funs_ok p.
 
-  Lemma gen_defaults_plain : forall ls ps, forallb plain_param ps = true -> gen_defaults p ls ps false = ([], 0).
-  Proof.
-    induction ps as [|q ps IH]; intros H; simpl in *; auto.
-    apply andb_true_iff in H. destruct H as [Hq Hps]. destruct q; try discriminate.
-    rewrite (IH Hps). reflexivity.
-  Qed.
-
-  Lemma eval_defaults_plain : forall n stk ρ ps s, forallb plain_param ps = true ->
-    eval_defaults p n stk ρ ps false s = Ok ([], s) \/ eval_defaults p n stk ρ ps false s = Oof.
-  Proof.
-    induction n; intros stk ρ ps s H; simpl; auto.
-    destruct ps as [|q ps]; auto. simpl in H. apply andb_true_iff in H. destruct H as [Hq Hps].
-    destruct q; try discriminate.
-    destruct (IHn stk ρ ps s Hps) as [E|E]; rewrite E; auto.
-  Qed.
-
   Definition is_lit (e : expr) : bool := match e with EInt _ | EStr _ => true | _ => false end.
   Lemma gs_expr_lit : forall ls e, is_lit e = true -> gen_stmt p ls (SExpr e) = [].
   Proof. intros; destruct e; try discriminate; reflexivity. Qed.
@@ -160,9 +184,9 @@ Section Stmt.
   Ltac fin2 := norm_state; apply star_eq; apply St_eq; [ simpl; len_norm; rewrite ?aug_len; lia | reflexivity ].
   Ltac fetch_at q k := match goal with Hf : nth_error _ q = Some _ |- _ => k Hf end.
 
-  Lemma X_step : forall n, E p n -> Cn p n -> As p n -> B p n -> W p n -> F p n -> X p (S n).
+  Lemma X_step : forall n, E p n -> Cn p n -> As p n -> B p n -> W p n -> F p n -> Df p n -> X p (S n).
   Proof.
-    intros n IHE IHC IHA IHB IHW IHF.
+    intros n IHE IHC IHA IHB IHW IHF IHD.
     unfold X; intros stk ρ st s fid0 C fv K pc I brk cont Hok Hwf Hstk Hcode.
     destruct st; simpl in Hok; try discriminate.
     - (* SExpr *)
@@ -181,7 +205,7 @@ Section Stmt.
       simpl exec.
       destruct (eval p n stk ρ e s) as [[v s1]| | |]; cbn [sim fst snd] in *; auto.
       match goal with Hc : pcode_at _ ?q (gen_assign _ _ _ _) _ _ |- _ =>
-        pose proof (IHA stk ρ t v p0 s1 fid0 C fv K q I brk cont Ht Hwf Hstk Hc) as IH2 end.
+        pose proof (IHA stk ρ t v p0 s1 fid0 C fv K q [] I brk cont Ht Hwf Hstk Hc) as IH2 end.
       destruct (assign p n stk ρ t v p0 s1) as [[ρ1 s2]| | |]; cbn [sim fst snd] in *; auto.
       + destruct IH2 as [Hw [Hm IH2]]. split; [split; auto|]. unfold after. chain IH1. chain IH2. fin.
       + hstar IH1. hchain IH2.
@@ -190,6 +214,9 @@ Section Stmt.
       apply andb_true_iff in Hok. destruct Hok as [Hok Ho]. apply andb_true_iff in Hok. destruct Hok as [Ht He].
       apply negb_true_iff in Ho.
       destruct t; simpl in Ht; try discriminate.
+      3: { (* sequence target: rejected statically; both sides report it *)
+           change (gen_stmt p (map fst ρ) (SAug o (TSeq ts) e p0)) with [UNSUPPORTED "static:augmented-sequence"] in *.
+           pcode_split. simpl exec. cbn [sim]. vstop. }
       + (* name *)
         rewrite gs_aug_name in *. pcode_split. rewrite ?aug_len in *.
         fetch_at pc ltac:(fun Hf => pose proof (name_sim p ρ x p1 s fid0 C fv K pc [] I brk cont Hwf Hf) as IHn).
@@ -202,7 +229,7 @@ Section Stmt.
           pose proof (aug_step o p0 vx ve (rw s1) fid0 C fv K q [] (env_vals ρ) I (rg s1) brk cont Ho Hc) as IHa end.
         destruct (apply_aug o vx ve (rw s1)) as [[r w]| |t] eqn:Ea; cbn [lift sim fst snd];
           try (hstar IHn; hstar IH1; hchain IHa).
-        match goal with Hf : nth_error C ?q = Some (resolve _ _ _ (gen_set _ _ _)) |- _ =>
+        match goal with Hf : nth_error C ?q = Some (resolve _ _ _ (gen_set _ _ _ _)) |- _ =>
           pose proof (set_sim ρ x r (with_w s1 w) fid0 C fv K q [] I brk cont Hwf Hf) as IHs end.
         destruct (set_var p ρ x r (with_w s1 w)) as [[ρ1 s2]| | |]; cbn [sim fst snd] in *; auto.
         * destruct IHs as [Hw [Hm IHs]]. split; [split; auto|]. unfold after.
@@ -322,25 +349,34 @@ Section Stmt.
         exists (S pc), [], (rw s). repeat split; auto.
         vstep. apply star_refl.
     - (* SDef *)
+      apply andb_true_iff in Hok. destruct Hok as [Hok Hlay].
       apply andb_true_iff in Hok. destruct Hok as [Hok Hbx]. apply andb_true_iff in Hok. destruct Hok as [Hps Hbody].
-      assert (Hlen : length (gen_stmt p (map fst ρ) (SDef fid name params body p0)) = 3).
-      { unfold gen_stmt; fold gen_stmt. rewrite (gen_defaults_plain _ _ Hps). reflexivity. }
-      rewrite Hlen.
-      unfold gen_stmt in Hcode; fold gen_stmt in Hcode.
-      rewrite (gen_defaults_plain _ _ Hps) in Hcode. simpl in Hcode. pcode_split.
+      pose proof (IHD stk ρ params false s fid0 C fv K pc [] I brk cont Hps Hwf Hstk) as IH1.
+      unfold gen_stmt in Hcode |- *; fold gen_stmt in Hcode |- *.
+      destruct (gen_defaults p (map fst ρ) params false) as [c k] eqn:Eg. cbn [fst snd] in *.
+      pcode_split.
+      match goal with Hc : pcode_at C pc c _ _ |- _ => specialize (IH1 Hc) end.
       simpl exec.
+      destruct (eval_defaults p n stk ρ params false s) as [[ds s1]| | |]; cbn [sim fst snd] in *; auto.
+      destruct IH1 as [Hlen IH1].
+      assert (Hpop : popn k (rev ds ++ []) [] = Some (ds, [])) by (rewrite <- Hlen; apply popn_rev).
       pose proof (Hfuns fid) as Hfid. unfold compile_prog in Hfid; cbn [cp_funs] in Hfid.
       destruct (find_def p fid) as [[fd encl]|].
-      2: { cbn [sim]. eapply halts_star; [ vstep; apply star_refl | ]. vstop1 Hfid. }
+      2: { cbn [sim]. hstar IH1. eapply halts_star; [ vstep1 Hpop; apply star_refl | ]. vstop1 Hfid. }
       destruct Hfid as [Hfd [Hencl Hfc]].
-      destruct (eval_defaults_plain n stk ρ params s Hps) as [Hd|Hd]; rewrite Hd; cbn [sim]; auto.
       rewrite (capture_direct ρ _ Hwf).
-      match goal with Hf : nth_error C ?q = Some (resolve _ _ _ (gen_set _ _ _)) |- _ =>
-        pose proof (set_sim ρ name (VFun fid [] []) s fid0 C fv K q [] I brk cont Hwf Hf) as IHs end.
-      destruct (set_var p ρ name (VFun fid [] []) s) as [[ρ1 s2]| | |]; cbn [sim fst snd] in *; auto.
+      match goal with Hf : nth_error C ?q = Some (resolve _ _ _ (gen_set _ _ _ _)) |- _ =>
+        pose proof (set_sim ρ name (VFun fid ds []) s1 fid0 C fv K q [] I brk cont Hwf Hf) as IHs end.
+      assert (Hpre : star cp fn (S1 fid0 C fv K pc [] ρ I s)
+                       (S1 fid0 C fv K (pc + length c + 2) [VFun fid ds []] ρ I s1)).
+      { chain IH1. vstep1 Hpop.
+        with_fetch ltac:(fun H => eapply star_step; [ rewrite (step_lit _ _ _ _ _ _ _ _ _ _ _ _ _ H); simpl; rewrite Hfc; simpl;
+                                                        rewrite Nat.sub_0_r, firstn_all; reflexivity | ]).
+        fin. }
+      destruct (set_var p ρ name (VFun fid ds []) s1) as [[ρ1 s2]| | |]; cbn [sim fst snd] in *; auto.
       + destruct IHs as [Hw [Hm IHs]]. split; [split; auto|]. unfold after.
-        vstep. vstep1 Hfc. chain IHs. fin.
-      + eapply halts_star; [ vstep; vstep1 Hfc; apply star_refl | ]. hchain IHs.
-      + eapply halts_star; [ vstep; vstep1 Hfc; apply star_refl | ]. hchain IHs.
+        chain Hpre. chain IHs. fin.
+      + hstar Hpre. hchain IHs.
+      + hstar Hpre. hchain IHs.
   Qed.
 End Stmt.
